@@ -169,6 +169,9 @@ void harness_case(Dec &d, Case &c) {
         CalChain cc = makeChain(base, a, p, pl); actual.any = true; actual.failure = devIsFailure(pl.dev); actual.chain = cc; Bytes pdu;
         if (pl.dev == D_ERROR_PDU) { Tlv e = errorPayload(pl.ver, false, pl.status, "err"); pdu = pl.ver == 1 ? sealV1(0x300, h, e, keyB, macAlg) : sealV2(0x321, h, {e}, keyB, macAlg); }
         else { bool st = pl.dev == D_STATUS || pl.dev == D_STATUS_WITH_CHAIN; bool withChain = pl.dev != D_NO_CHAIN && pl.dev != D_STATUS; Tlv x = extRespPayload(pl.ver, rid, true, st ? pl.status : 0, st ? "failure" : "", withChain ? &cc : nullptr, true, pl.head); pdu = pl.ver == 1 ? sealV1(0x300, h, x, keyB, macAlg) : sealV2(0x321, h, {x}, keyB, macAlg); }
+        if (pl.dev == D_BAD_MAC && pl.sel % 3 == 0) { // a forger without the key: the client's own header, request element and MAC echoed back around an (otherwise correct) response
+            Tlv rq; std::vector<Tlv> rk; if (decodeOne(req, rq) && decodeList(rq.payload.data(), rq.payload.size(), rk) && rk.size() >= 3) { Tlv x = extRespPayload(pl.ver, rid, true, 0, "", &cc, true, pl.head); Tlv e(pl.ver == 1 ? 0x300 : 0x321); e.nested = true; bool respFirst = (pl.sel / 3) % 2 == 0;
+                e.kids.push_back(rk[0]); if (respFirst) e.kids.push_back(x); for (size_t i = 1; i + 1 < rk.size(); i++) e.kids.push_back(rk[i]); if (!respFirst) e.kids.push_back(x); e.kids.push_back(rk.back()); pdu = e.enc(); c.cls("extender:request-echoed-around-unauthenticated-response"); return pdu; } }
         if (pl.dev == D_BAD_MAC) pdu[pdu.size() - 1 - pl.sel % 8] ^= 1;
         return pdu; };
     if (pl.dev == D_RESET) srv.resetInsteadOfReply = true; srv.attach();
